@@ -1,6 +1,6 @@
 (* C09 — subsets and cross-sections are faithful restrictions. Statements only. *)
 From Coq Require Import Sorting.Sorted Permutation.
-From Verif Require Import Base C02 C02_sup C09 C09_proofs C09_commute_proofs C09_edges C09_edge_table_proofs C03 C09_C03_proofs C09_edge_data_proofs.
+From Verif Require Import Base C02 C02_sup C09 C09_proofs C09_commute_proofs C09_edges C09_edge_table_proofs C03 C09_C03_proofs C09_edge_data_proofs C02_check C02_check_proofs C09_subset_std_proofs.
 
 (* face k of the subset is source face idx[k]: reading its row back through the recorded node
    indices gives the source row (same corners, same cyclic order and start, same padding) *)
@@ -127,3 +127,16 @@ Theorem C09_edge_count : forall m T idx, std_table m T ->
   length (edges (fst (c09_slice_faces T idx))) = length (c09_edge_indices (face_edges T m) idx).
 Proof. exact derived_edge_count. Qed.
 Print Assumptions C09_edge_count.
+
+(* ---- a subset is a grid in standard form again: everything C02 proves about derived tables holds ON the subset ---- *)
+Theorem C09_subset_standard_form : forall m T idx, std_table m T ->
+  Forall (fun i => 0 <= i < Z.of_nat (length T)) idx -> std_table m (fst (c09_slice_faces T idx)).
+Proof. exact subset_std. Qed.
+Print Assumptions C09_subset_standard_form.
+
+Theorem C09_subset_meets_C02 : forall m T idx, std_table m T ->
+  Forall (fun i => 0 <= i < Z.of_nat (length T)) idx ->
+  let S := fst (c09_slice_faces T idx) in
+  C02_spec S (edges S) (face_edges S m) (n_nodes_per_face S).
+Proof. exact subset_meets_C02. Qed.
+Print Assumptions C09_subset_meets_C02.
